@@ -210,7 +210,8 @@ theorem foldl_saveSegment_reAux (aux : Nat → SegAux) (c : Cls) (enc : Enc) (ph
     index set `S` (the members of segments) -/
 def LRel (S : Nat → Prop) (lx ly : List SecBuf) : Prop :=
   lx.length = ly.length ∧
-  ∀ (i : Nat) x y, lx[i]? = some x → ly[i]? = some y → OutRel x y ∧ (S i → x.addrSet = y.addrSet)
+  ∀ (i : Nat) x y, lx[i]? = some x → ly[i]? = some y →
+    OutRel x y ∧ (S i → wsd_is_null y.stype = false → x.addrSet = y.addrSet)
 
 theorem LRel.all2 {S : Nat → Prop} {lx ly : List SecBuf} (h : LRel S lx ly) : All2 OutRel lx ly :=
   all2_of_getElem? lx ly h.1 (fun i x y hx hy => (h.2 i x y hx hy).1)
@@ -225,7 +226,7 @@ theorem LRel.set {S : Nat → Prop} {lx ly : List SecBuf} (h : LRel S lx ly) (i 
     · rw [if_pos h1] at hx
       rw [if_pos (by rw [← h.1]; exact h1)] at hy
       cases hx; cases hy
-      exact ⟨hs, fun _ => ha⟩
+      exact ⟨hs, fun _ _ => ha⟩
     · rw [if_neg h1] at hx; cases hx
   · rw [if_neg e] at hx hy
     exact h.2 j x y hx hy
@@ -236,7 +237,8 @@ theorem LRel.none {S : Nat → Prop} {lx ly : List SecBuf} (h : LRel S lx ly) {i
   rw [← h.1]; exact hx
 
 theorem LRel.some {S : Nat → Prop} {lx ly : List SecBuf} (h : LRel S lx ly) {i : Nat} {x : SecBuf}
-    (hx : lx[i]? = some x) : ∃ y, ly[i]? = some y ∧ OutRel x y ∧ (S i → x.addrSet = y.addrSet) := by
+    (hx : lx[i]? = some x) :
+    ∃ y, ly[i]? = some y ∧ OutRel x y ∧ (S i → wsd_is_null y.stype = false → x.addrSet = y.addrSet) := by
   have hi : i < ly.length := by rw [← h.1]; exact getElem?_lt hx
   exact ⟨ly[i], List.getElem?_eq_getElem hi, h.2 i x _ hx (List.getElem?_eq_getElem hi)⟩
 
@@ -268,14 +270,18 @@ inductive StepRel : StepOut → StepOut → Prop
   | placed {s s' : SecBuf} (p m f : BitVec 64) : OutRel s s' → s.addrSet = s'.addrSet →
       StepRel (.placed s p m f) (.placed s' p m f)
 
-theorem stepCore_rel {x y : SecBuf} (h : OutRel x y) (gen : Bool) (ha : gen = false → x.addrSet = y.addrSet)
+theorem stepCore_rel {x y : SecBuf} (h : OutRel x y) (gen : Bool)
+    (ha : gen = false → wsd_is_null y.stype = false → x.addrSet = y.addrSet)
     (c : Cls) (g : Seg) (ss pos mem file : BitVec 64) :
     StepRel (stepCore c g ss x gen pos mem file) (stepCore c g ss y gen pos mem file) := by
   unfold stepCore
-  rw [stepGap_rel h gen ha, h.stype, h.flags, h.size]
+  rw [h.stype, h.flags, h.size]
   by_cases hn : wsd_is_null y.stype = true
   · rw [if_pos hn, if_pos hn]; exact .null
   · rw [if_neg hn, if_neg hn]
+    have hn' : wsd_is_null y.stype = false := by simpa using hn
+    have ha : gen = false → x.addrSet = y.addrSet := fun e => ha e hn'
+    rw [stepGap_rel h gen ha]
     cases stepGap g ss y gen pos file with
     | none => exact .abort
     | some gap =>
@@ -309,7 +315,7 @@ theorem wsdStep_rel {S : Nat → Prop} {c : Cls} {g : Seg} {ss : BitVec 64} {st1
     | none => exact rfl
     | some gen =>
       simp only [pure, Except.pure]
-      have hr := stepCore_rel hxy gen (fun _ => hset hS) c g ss st1.lay.pos st1.mem st1.file
+      have hr := stepCore_rel hxy gen (fun _ hn => hset hS hn) c g ss st1.lay.pos st1.mem st1.file
       generalize stepCore c g ss x gen st1.lay.pos st1.mem st1.file = o1 at hr
       generalize stepCore c g ss y gen st1.lay.pos st1.mem st1.file = o2 at hr
       cases hr with
@@ -693,5 +699,158 @@ theorem load_segs_offsetSet {o : Obj} {st : IStream} {isLazy : Bool} {r : LoadRe
   all_goals first
     | (cases h; intro g hg; exact (List.not_mem_nil hg).elim)
     | exact loadTables_offsetSet rfl h
+
+/-! ### where `save` puts the loose sections and the flat segments (for `members_recomputed`) -/
+
+/-- a flat segment with file size > 0 starts at or behind the initial cursor and ends at or before the
+    cursor the segment pass leaves (`layoutSegment_flat` + monotone cursor) -/
+theorem flat_seg_bounds {o : Obj} {os : OStream} {r : SaveRes} {hdr : Bytes}
+    (hs : save o os = .ok r) (hok : r.ok = true) (hh : o.hdr = some hdr)
+    (hn : o.secs.length < 65536)
+    (h0 : ∀ (i : Nat) (s : SecBuf), o.secs[i]? = some s → s.Occ → s.index ≠ 0)
+    (hnw : layoutNW (preSave o) hdr = true) (hnd : (o.segs.map (·.index)).Nodup)
+    (sel : Nat → Bool) (hdom : layoutDomB false false sel (preSave o) hdr = true)
+    (g : Seg) (hg : g ∈ r.obj.segs) (hsel : sel g.index = true)
+    (hph : lseg_is_phdr g.stype (BitVec.ofNat 16 g.secs.length) = false)
+    (hfs : g.filesz.toNat ≠ 0) (res : LayoutRes) (hl : layoutOf (preSave o) hdr = .ok (some res)) :
+    res.pos0.toNat ≤ g.offset.toNat ∧ g.offset.toNat + g.filesz.toNat ≤ res.lay2.pos.toNat := by
+  obtain ⟨res', hl', hsegs, -, -⟩ := C04.save_secs_hdr o os r hdr hs hok hh
+  rw [hl] at hl'
+  obtain rfl : res = res' := by injection hl' with e; injection e
+  rw [hsegs] at hg
+  have hn' : (preSave o).secs.length < 65536 := by rw [preSave_length]; exact hn
+  have h0' := preSave_h0 o h0
+  obtain ⟨t, ht, rfl⟩ := final_segs_turn (preSave o) hdr res hl hnw hn' h0' hnd g hg
+  obtain ⟨-, -, e3⟩ := layoutOf_trace (preSave o) hdr res hl hnw hn' h0'
+  obtain ⟨f1, f2, f3, f4, f5, -⟩ := e3 t ht
+  unfold layoutDomB at hdom
+  rw [hl] at hdom
+  simp only at hdom
+  obtain ⟨-, hsecs, hidx, -, hty, -⟩ := layoutSegment_marks _ _ _ _ _ _ _ _ _ f3 f2 f1
+  have hturn := segsAllB_trace _ _ _ _ _ _ _ hdom t ht
+  rw [hidx] at hsel
+  simp only [hsel, Bool.not_true, Bool.false_or, Bool.and_eq_true, Bool.or_eq_true] at hturn
+  obtain ⟨⟨hsd, hfl⟩, hfe⟩ := hturn
+  have hne : t.g.secs ≠ [] := by
+    intro e
+    have := layoutSegment_empty _ _ _ _ t.lay t.lay' t.g t.g' e (by rw [← hsecs, ← hty]; exact hph) f1
+    rw [this] at hfs; exact hfs rfl
+  have hfresh : segFresh t.lay t.g := by
+    rcases hfe with he | hf
+    · simp only [List.isEmpty_iff] at he; exact absurd he hne
+    · exact segFresh_of_B _ _ hf
+  obtain ⟨hA, hB, -⟩ := layoutSegment_flat _ _ _ _ t.lay t.lay' t.g t.g' _ f3 f2
+    (segDom_weaken _ _ _ _ _ _ _ _ hsd) hfl hfresh f1
+  have h1 := f5.mono
+  have h4 : res.pos0.toNat ≤ t.lay.pos.toNat := f4.mono
+  exact ⟨by omega, by omega⟩
+
+/-- a section of the saved object that lies outside all segments (and is not section 0) starts at or
+    behind the cursor the segment pass leaves -/
+theorem saved_loose_offset_ge {o : Obj} {os : OStream} {r : SaveRes} {hdr : Bytes}
+    (hs : save o os = .ok r) (hok : r.ok = true) (hh : o.hdr = some hdr)
+    (hnw : layoutNW (preSave o) hdr = true)
+    (k : Nat) (b : SecBuf) (hk : r.obj.secs[k]? = some b) (hw : withoutSegment r.obj.segs k = true)
+    (hi : b.index ≠ 0) (res : LayoutRes) (hl : layoutOf (preSave o) hdr = .ok (some res)) :
+    res.lay2.pos.toNat ≤ b.offset.toNat := by
+  obtain ⟨res', hl', hsegs, -, he⟩ := C04.save_secs_hdr o os r hdr hs hok hh
+  rw [hl] at hl'
+  obtain rfl : res = res' := by injection hl' with e; injection e
+  obtain ⟨s', hs', hhs⟩ := hdrOf_getElem? he k b hk
+  simp only [hdrOf, Prod.mk.injEq] at hhs
+  obtain ⟨e1, -, -, e4, -⟩ := hhs
+  rw [hsegs] at hw
+  unfold layoutNW at hnw
+  rw [hl] at hnw
+  simp only [Bool.and_eq_true, decide_eq_true_eq] at hnw
+  obtain ⟨⟨-, hnw3⟩, -⟩ := hnw
+  obtain ⟨-, -, -, -, -, -, hloose, -⟩ := layoutOf_parts (preSave o) hdr res hl
+  rw [layoutLoose_eq_spec] at hloose
+  simp only [List.reverse_nil, List.nil_append, Prod.mk.injEq] at hloose
+  obtain ⟨hsecs, -⟩ := hloose
+  obtain ⟨flen, -, -, fpl, -⟩ := looseSpec_facts (preSave o).cls res.segs res.lay2.secs 0 res.lay2.pos hnw3
+  simp only [Nat.zero_add] at fpl
+  simp only [← hsecs] at flen fpl
+  have hlt : k < res.lay2.secs.length := by rw [← flen]; exact getElem?_lt hs'
+  obtain ⟨t, ht, hm, -, -, hr⟩ := fpl k _ (List.getElem?_eq_getElem hlt) hw
+  rw [hs'] at ht; simp only [Option.some.injEq] at ht; subst ht
+  have := (hr (by rw [← hm.index, e4]; exact hi)).1
+  rw [← e1]
+  exact this
+
+/-- the initial cursor lies behind the ELF header -/
+theorem pos0_pos {o : Obj} {hd : Bytes} {res : LayoutRes} (hl : layoutOf (preSave o) hd = .ok (some res))
+    (heh0 : Hdr.e_ehsize o.cls o.enc (ElfioVerif.saveHdr0 o hd) = Hdr.e_ehsize o.cls o.enc hd)
+    (heh : (Hdr.e_ehsize o.cls o.enc hd).toNat = ehdrSize o.cls) : 0 < res.pos0.toNat := by
+  obtain ⟨e1, e2, -⟩ := layoutOf_parts (preSave o) hd res hl
+  rw [saveHdr0_preSave] at e1
+  rw [e2, C04.save_cursor0_toNat, e1]
+  have : (Hdr.e_ehsize (preSave o).cls (preSave o).enc (ElfioVerif.saveHdr0 o hd)).toNat = ehdrSize o.cls := by
+    show (Hdr.e_ehsize o.cls o.enc (ElfioVerif.saveHdr0 o hd)).toNat = _
+    rw [heh0, heh]
+  rw [this]
+  have := ehdrSize_ge o.cls
+  omega
+
+theorem placed_offset0 {c : Cls} {a b : SecBuf} (h : Placed c a b) (hi : a.index = 0) :
+    b.offset = a.offset ∧ b.index = 0 := by
+  induction h with
+  | refl => exact ⟨rfl, hi⟩
+  | @off m v _ ih =>
+    rw [setOffset_eq]
+    have : (m.index != 0) = false := by rw [ih.2]; rfl
+    rw [this]
+    exact ih
+  | addr x _ _ ih => exact ih
+
+/-- the section with index 0 keeps its file offset -/
+theorem saved_sec0_offset {o : Obj} {os : OStream} {r : SaveRes} (hs : save o os = .ok r) (hok : r.ok = true)
+    (hidx : SegIdxOk o.segs) (k : Nat) (a b : SecBuf) (ha : o.secs[k]? = some a) (hb : r.obj.secs[k]? = some b)
+    (hi : a.index = 0) : b.offset = a.offset := by
+  obtain ⟨⟨l0, l1, f0, f1, f2⟩, -, -, -, -⟩ := save_frames hs hok hidx
+  have hk2 := getElem?_lt hb
+  have hk1 : k < l1.length := by rw [← f2.1]; exact hk2
+  have hk0 : k < l0.length := by rw [← f1.1]; exact hk1
+  have ra := f0.2 k _ _ ha (List.getElem?_eq_getElem hk0)
+  have pm := f1.2 k _ _ (List.getElem?_eq_getElem hk0) (List.getElem?_eq_getElem hk1)
+  have rb := f2.2 k _ _ (List.getElem?_eq_getElem hk1) hb
+  have e0 : (l0[k]).index = 0 := by rw [ra.rest]; exact hi
+  have e0' : (l0[k]).offset = a.offset := by rw [ra.rest]
+  obtain ⟨e1, -⟩ := placed_offset0 pm e0
+  have e2 : b.offset = (l1[k]).offset := by rw [rb.rest]
+  rw [e2, e1, e0']
+
+/-- two strictly ascending lists of naturals with the same members are equal -/
+theorem sorted_ext (l1 l2 : List Nat) (h1 : l1.Pairwise (· < ·)) (h2 : l2.Pairwise (· < ·))
+    (h : ∀ x, x ∈ l1 ↔ x ∈ l2) : l1 = l2 := by
+  induction l1 generalizing l2 with
+  | nil =>
+    cases l2 with
+    | nil => rfl
+    | cons b t => exact absurd ((h b).2 List.mem_cons_self) (by simp)
+  | cons a t1 ih =>
+    cases l2 with
+    | nil => exact absurd ((h a).1 List.mem_cons_self) (by simp)
+    | cons b t2 =>
+      rw [List.pairwise_cons] at h1 h2
+      have hab : a = b := by
+        rcases List.mem_cons.1 ((h a).1 List.mem_cons_self) with e | e
+        · exact e
+        · rcases List.mem_cons.1 ((h b).2 List.mem_cons_self) with e' | e'
+          · exact e'.symm
+          · have := h2.1 a e; have := h1.1 b e'; omega
+      subst hab
+      congr 1
+      apply ih t2 h1.2 h2.2
+      intro x
+      constructor
+      · intro hx
+        rcases List.mem_cons.1 ((h x).1 (List.mem_cons_of_mem _ hx)) with e | e
+        · have := h1.1 x hx; omega
+        · exact e
+      · intro hx
+        rcases List.mem_cons.1 ((h x).2 (List.mem_cons_of_mem _ hx)) with e | e
+        · have := h2.1 x hx; omega
+        · exact e
 
 end ElfioVerif.RoundTrip
